@@ -163,6 +163,7 @@ static void fiber_main(unsigned lo, unsigned hi) {
 Plan gen_conc(u64 seed) {
     Rng r(seed); Plan p; p.mode = "conc"; p.seed = seed;
     std::string font = gen_font(r);
+    if (r.chance(1, 4)) { static const char *coll[] = {"AwamiNastaliq-Regular", "Awami_test", "Awami_compressed_test"}; font = coll[r.below(3)]; }   // collision fixing / kerning code runs only on these
     Op mf; mf.kind = "make_face"; mf.s = font; mf.a = {0, 0, i64(6 | r.below(2)), 0, 0}; p.ops.push_back(mf);
     unsigned nfonts = r.below(3);
     for (unsigned i = 0; i < nfonts; ++i) { Op o; o.kind = "make_font"; o.a = {0, i64(16 * (6 + r.below(90)))}; p.ops.push_back(o); }
